@@ -121,9 +121,9 @@ prop('C07', COMMON +
      'as its last action (ORD-C07-signal); the job is owned by the queue, not by the returned future (ORD-C07-own); poll never decides to wait while the queue is Idle or Pending (TR-defer); a queue parked by a poll can be taken over by the pool (PARK-wake); '
      'the polling task drains under the token (TOK-exec, TOK-leak).',
      ['check-and-register / set-and-take atomic (LW1, LW2, LW-owner)', 'signal once, after completion (ORD-C07-signal)', 'job owned by the queue (ORD-C07-own)', 'poll never defers on Idle/Pending (TR-defer)',
-      'abandoned poll-side drain is taken over (PARK-wake)', 'poll-side drain holds and releases the token (TOK-exec, TOK-leak)'],
+      'abandoned poll-side drain is taken over; the real waker is installed only after the queue is parked (PARK-wake, ORD-C06-drain)', 'poll-side drain holds and releases the token (TOK-exec, TOK-leak)'],
      ['equality of the delivered value with what the user closure computed', 'ordering of sibling polls as executions'],
-     [(RW.lw, None, ['|waker']), (RW.lw_owner, None), (RO.c07_signal, None), (RO.c07_own, None), (RP.tr_defer, None, ['SchedulerFuture::poll']), (RP.park_wake, None), (RP.tok_exec, None), (RP.tok_leak, None, ['SchedulerFuture'])])
+     [(RW.lw, None, ['|waker']), (RW.lw_owner, None), (RO.c07_signal, None), (RO.c07_own, None), (RP.tr_defer, None, ['SchedulerFuture::poll']), (RP.park_wake, None), (RO.c06_drain, None, ['drain_queue', 'DW-table', 'DoubleWaker']), (RP.tok_exec, None), (RP.tok_leak, None, ['SchedulerFuture'])])
 
 prop('C08', COMMON +
      'Decided (ORD-C08): the two oneshot channels of future_sync are split so that the slot job holds the queue-ready sender and the task-finished receiver and the SyncFuture the opposite ends; the slot job announces, waits, then signals, also when cancelled; '
@@ -143,9 +143,9 @@ prop('C09', COMMON +
 prop('C10', COMMON +
      'Decided: no scheduler-wide lock is held at any job-execution or blocking site (BL); the lock-order graph is acyclic (LO); a ready queue goes to a dormant thread or to a newly spawned one below the maximum, then scheduling is retried (ORD-C10-spawn); '
      'pool threads keep pulling until the schedule is empty (ORD-C10-fetch) and the dormant handshake cannot misread a transient lock hold (ORD-C03-dormant, TRY).',
-     ['no scheduler-wide lock held while a job runs or a thread blocks (BL)', 'lock order acyclic (LO)', 'dormant else spawn then retry (ORD-C10-spawn)', 'fetch loop and dormant handshake (ORD-C10-fetch, ORD-C03-dormant, TRY)'],
+     ['no scheduler-wide lock held while a job runs or a thread blocks (BL)', 'lock order acyclic (LO)', 'dormant else spawn then retry (ORD-C10-spawn)', 'raising the maximum schedules until nothing more can be scheduled (ORD-C10-raise)', 'fetch loop and dormant handshake (ORD-C10-fetch, ORD-C03-dormant, TRY)'],
      ['actual parallel progress (liveness); the claim is limited to these structural conditions'],
-     [(RL.bl, None), (RL.lo, None), (RO.c10_spawn, None), (RO.c10_fetch, None), (RO.c03_dormant, None), (RL.try_rule, None), (RL.lock_classes, None)])
+     [(RL.bl, None), (RL.lo, None), (RO.c10_spawn, None), (RO.c10_fetch, None), (RO.c10_raise, None), (RO.c03_dormant, None), (RL.try_rule, None), (RL.lock_classes, None)])
 
 prop('C11', COMMON +
      'Decided (ORD-C11): the pipe\'s poll function only runs inside a future_desync job of the target; in pipe_in each Ready(Some(item)) is handed to the processing function and awaited to completion before the next poll, Pending keeps the pipe with the pipe\'s own waker, '
